@@ -44,6 +44,19 @@ theorem zipApp_replicate_nil {α : Type} (k : Nat) (r : List (List α)) (h : r.l
       simp only [List.replicate_succ, zipApp_cons, List.nil_append]
       rw [ih r (by simpa using h)]
 
+theorem zipApp_replicate_nil_right {α : Type} (k : Nat) (r : List (List α)) (h : r.length = k) :
+    zipApp r (List.replicate k []) = r := by
+  induction k generalizing r with
+  | zero => cases r with
+    | nil => rfl
+    | cons _ _ => simp at h
+  | succ k ih =>
+    cases r with
+    | nil => simp at h
+    | cons x r =>
+      simp only [List.replicate_succ, zipApp_cons, List.append_nil]
+      rw [ih r (by simpa using h)]
+
 /-! ### positions -/
 
 /-- positions `lo … lo+m-1` -/
@@ -617,6 +630,116 @@ theorem decF_encF (d : Nat) : ∀ (fs : List Fmt) (tsh : List Nat) (ish : Option
       simp only [Bool.false_eq_true, if_false, List.nil_append]
       rw [hdk (List.replicate (els.map (·.1)).length 0) (by simp) (by intro h; rw [h] at hg; cases hg)]
 
+
+
+/-! ### extents: effective vs declared -/
+
+theorem ishNext_none (f : Fmt) : ishNext f none = none := by cases f <;> rfl
+
+theorem effShape_none : ∀ (fs : List Fmt) (tsh : List Nat), tsh.length = fs.length → effShape fs tsh none = tsh
+  | [], tsh, h => by cases tsh with
+    | nil => rfl
+    | cons _ _ => simp at h
+  | f :: fs, tsh, h => by
+    cases tsh with
+    | nil => simp at h
+    | cons x tsh =>
+      simp only [effShape, ishNext_none, List.tail_cons]
+      rw [effShape_none fs tsh (by simpa using h)]
+      rfl
+
+/-- the imposed shape (if any) dominates the tensor's own shape -/
+def IshOK (ish : Option (List Nat)) (tsh : List Nat) : Prop :=
+  match ish with
+  | none => True
+  | some s => shapeGe s tsh = true
+
+theorem IshOK_next (f : Fmt) (ish : Option (List Nat)) (tsh : List Nat) (h : IshOK ish tsh) :
+    IshOK (ishNext f ish) tsh.tail := by
+  cases ish with
+  | none => rw [ishNext_none]; trivial
+  | some s =>
+    have h' : shapeGe s tsh = true := h
+    cases f with
+    | B => trivial
+    | U =>
+      show shapeGe s.tail tsh.tail = true
+      cases s with
+      | nil => cases tsh with
+        | nil => rfl
+        | cons _ _ => simp [shapeGe] at h'
+      | cons a s => cases tsh with
+        | nil => simp [shapeGe] at h'
+        | cons b tsh => simp [shapeGe] at h'; exact h'.2
+    | C =>
+      show shapeGe s.tail tsh.tail = true
+      cases s with
+      | nil => cases tsh with
+        | nil => rfl
+        | cons _ _ => simp [shapeGe] at h'
+      | cons a s => cases tsh with
+        | nil => simp [shapeGe] at h'
+        | cons b tsh => simp [shapeGe] at h'; exact h'.2
+
+theorem dimOf_ge (tsh : List Nat) (ish : Option (List Nat)) (h : IshOK ish tsh) : tsh.headD 0 ≤ dimOf tsh ish := by
+  cases ish with
+  | none => exact Nat.le_refl _
+  | some s =>
+    have h' : shapeGe s tsh = true := h
+    cases s with
+    | nil => cases tsh with
+      | nil => exact Nat.le_refl _
+      | cons _ _ => simp [shapeGe] at h'
+    | cons a s => cases tsh with
+      | nil => simp [shapeGe] at h'
+      | cons b tsh => simp [shapeGe] at h'; simpa [dimOf] using h'.1
+
+theorem inEff_of_inShape (d : Nat) : ∀ (fs : List Fmt) (tsh : List Nat) (ish : Option (List Nat)) (a : Tree Int Int d),
+    inShape d tsh a = true → IshOK ish tsh → inEff d fs tsh ish a = true := by
+  induction d with
+  | zero => intro _ _ _ _ _ _; rfl
+  | succ d ih =>
+    intro fs tsh ish a
+    have key : ∀ (l : List (Int × Tree Int Int d)), inShape (d + 1) tsh (show Tree Int Int (d + 1) from l) = true →
+        IshOK ish tsh → inEff (d + 1) fs tsh ish (show Tree Int Int (d + 1) from l) = true := by
+      intro l h hok
+      have h2 : (l.all fun e => decide (0 ≤ e.1) && decide (e.1 < ((tsh.headD 0 : Nat) : Int)) &&
+          inShape d tsh.tail e.2) = true := h
+      show (l.all fun e => decide (0 ≤ e.1) && decide (e.1 < ((dimOf tsh ish : Nat) : Int)) &&
+          inEff d fs.tail tsh.tail (ishNext (fs.headD .U) ish) e.2) = true
+      rw [List.all_eq_true] at h2 ⊢
+      intro e he
+      have := h2 e he
+      simp only [Bool.and_eq_true, decide_eq_true_eq] at this ⊢
+      have hd := dimOf_ge tsh ish hok
+      refine ⟨⟨this.1.1, by omega⟩, ih _ _ _ _ this.2 (IshOK_next _ _ _ hok)⟩
+    exact key a
+
+/-- the decoder does not look at the extent of a C rank -/
+theorem decF_agree (d : Nat) : ∀ (fs : List Fmt) (s1 s2 : List Nat), agreeNonC fs s1 s2 = true →
+    fs.length = d + 1 → decF d fs s1 = decF d fs s2 := by
+  induction d with
+  | zero =>
+    intro fs s1 s2 h hl
+    match fs, hl with
+    | [f], _ =>
+    funext n cs ps
+    simp only [agreeNonC, Bool.and_true, Bool.or_eq_true, beq_iff_eq] at h
+    simp only [decF, List.headD_cons]
+    rcases h with h | h
+    · subst h; rfl
+    · rw [h]
+  | succ d ih =>
+    intro fs s1 s2 h hl
+    match fs, hl with
+    | f :: fs', hl' =>
+    simp only [agreeNonC, Bool.and_eq_true, Bool.or_eq_true, beq_iff_eq] at h
+    funext n cs ps
+    have hrec := ih fs' s1.tail s2.tail h.2 (by simpa using hl')
+    simp only [decF, List.headD_cons, List.tail_cons, hrec]
+    rcases h.1 with h1 | h1
+    · subst h1; rfl
+    · rw [h1]
 
 end Codec
 end Ft
